@@ -175,9 +175,15 @@ class Elem:
         self.err("assignment target not modelled", st)
 
     def mask_of(self, sl):
-        """A subscript that is a boolean condition (Compare / BoolOp / name bound to one)."""
+        """A subscript that is a boolean condition (Compare / BoolOp / np.isclose / name bound to one)."""
         if isinstance(sl, ast.Compare):
             return self.compare(sl)
+        if isinstance(sl, ast.Call) and dotted(sl.func) in ("np.isclose", "numpy.isclose") and len(sl.args) >= 2:
+            return self.expr(sl)
+        if isinstance(sl, (ast.BoolOp, ast.UnaryOp)):
+            v = self.expr(sl)
+            if isinstance(v, (sp.core.relational.Relational, sp.logic.boolalg.BooleanFunction)):
+                return v
         if isinstance(sl, ast.Name):
             v = self.env.get(sl.id)
             if isinstance(v, (sp.core.relational.Relational, sp.logic.boolalg.BooleanFunction)):
@@ -276,6 +282,8 @@ class Elem:
             self.err("subscript not modelled", e)
         if isinstance(e, ast.Attribute):
             d = dotted(e)
+            if isinstance(e.value, ast.Call) and dotted(e.value.func) in ("np.finfo", "numpy.finfo") and e.attr in ("eps", "tiny", "max", "min", "resolution", "smallest_normal"):
+                return sp.Symbol("FINFO_" + e.attr, positive=True)
             if d in self.attr_symbols:
                 return self.attr_symbols[d]
             if e.attr in ("T", "real"):
@@ -320,6 +328,15 @@ class Elem:
         short = d.split(".")[-1] if d else None
         if d in ("np.clip", "numpy.clip") and e.args:
             return self._clip(self.expr(e.args[0]), e.args[1:], e.keywords, e)
+        if d in ("max", "min") and len(e.args) == 2 and not e.keywords:
+            a_, b_ = self.expr(e.args[0]), self.expr(e.args[1])
+            return sp.Max(a_, b_) if d == "max" else sp.Min(a_, b_)
+        if isinstance(e.func, ast.Attribute) and isinstance(e.func.value, ast.Call) and False:
+            pass
+        if d in ("np.isclose", "numpy.isclose", "math.isclose") and len(e.args) >= 2:
+            # |a - b| <= atol + rtol |b| with the (positive) tolerances kept symbolic
+            a_, b_ = self.expr(e.args[0]), self.expr(e.args[1])
+            return sp.Le(sp.Abs(a_ - b_), sp.Symbol("ATOL", positive=True) + sp.Symbol("RTOL", positive=True) * sp.Abs(b_))
         if d in self.handlers:
             r = self.handlers[d](self, e)
             if r is not None:
